@@ -63,6 +63,17 @@ fn hit_close(a: &Value, b: &Value) -> bool {
   }
 }
 
+thread_local! {
+  /// (document in the first response, document in the second, is the first one also in the second list, is the
+  /// second one also in the first list) of every position pardoned as a near tie by the last comparisons
+  static PARDONED: std::cell::RefCell<Vec<(String, String, bool, bool)>> = const { std::cell::RefCell::new(Vec::new()) };
+}
+
+/// the pairs pardoned since the last call
+pub fn take_pardoned() -> Vec<(String, String, bool, bool)> {
+  PARDONED.with(|p| std::mem::take(&mut *p.borrow_mut()))
+}
+
 fn top_hits_cmp(a: &serde_json::Map<String, Value>, b: &serde_json::Map<String, Value>, score_ties: bool) -> AggEq {
   // every member but the hit list is exact (total, type)
   if a.len() != b.len() || !a.iter().all(|(k, v)| k == "hits" || b.get(k) == Some(v)) {
@@ -83,6 +94,9 @@ fn top_hits_cmp(a: &serde_json::Map<String, Value>, b: &serde_json::Map<String, 
     if !score_ties || x["doc_id"] == y["doc_id"] || !score_close(&x["score"], &y["score"]) {
       return AggEq::Different;
     }
+    let x_in_b = hb.iter().any(|h| h["doc_id"] == x["doc_id"]);
+    let y_in_a = ha.iter().any(|h| h["doc_id"] == y["doc_id"]);
+    PARDONED.with(|p| p.borrow_mut().push((x["doc_id"].as_str().unwrap_or("").to_string(), y["doc_id"].as_str().unwrap_or("").to_string(), x_in_b, y_in_a)));
     res = AggEq::NearTie;
   }
   if res == AggEq::NearTie {
@@ -148,6 +162,49 @@ pub fn json_close(a: &Value, b: &Value) -> bool {
   agg_cmp(a, b, false) == AggEq::Same
 }
 
+fn token_bag(d: &Value, field: &str) -> Vec<String> {
+  let mut t: Vec<String> = match d.get(field) {
+    Some(Value::String(s)) => s.split_whitespace().map(|w| w.to_lowercase()).collect(),
+    Some(Value::Array(a)) => a.iter().filter_map(|v| v.as_str()).flat_map(|s| s.split_whitespace().map(|w| w.to_lowercase()).collect::<Vec<_>>()).collect(),
+    _ => Vec::new(),
+  };
+  t.sort();
+  t
+}
+
+/// same segment, same token multisets in body and title, bit-identical scores in the base response
+fn exact_tie(live: &[(String, Value, usize, usize)], base_scores: &std::collections::HashMap<String, u32>, x: &str, y: &str) -> bool {
+  let (Some(a), Some(b)) = (live.iter().find(|l| l.0 == x), live.iter().find(|l| l.0 == y)) else { return false };
+  let (Some(sa), Some(sb)) = (base_scores.get(x), base_scores.get(y)) else { return false };
+  a.2 == b.2 && sa == sb && token_bag(&a.1, "body") == token_bag(&b.1, "body") && token_bag(&a.1, "title") == token_bag(&b.1, "title")
+}
+
+/// bit-identical base scores although `x` precedes `y` in (segment, document) order
+fn base_prefers_later(live: &[(String, Value, usize, usize)], base_scores: &std::collections::HashMap<String, u32>, x: &str, y: &str) -> bool {
+  let (Some(a), Some(b)) = (live.iter().find(|l| l.0 == x), live.iter().find(|l| l.0 == y)) else { return false };
+  let (Some(sa), Some(sb)) = (base_scores.get(x), base_scores.get(y)) else { return false };
+  sa == sb && (a.2, a.3) < (b.2, b.3)
+}
+
+/// every `top_hits` of the tree orders by score descending only (default or explicit) and has no `from`
+fn all_top_hits_plain(aggs: &Value) -> bool {
+  match aggs {
+    Value::Object(m) => {
+      if m.get("type").and_then(|t| t.as_str()) == Some("top_hits") {
+        let from0 = m.get("from").and_then(|f| f.as_u64()).unwrap_or(0) == 0;
+        let plain = match m.get("sort").and_then(|s| s.as_array()) {
+          None => true,
+          Some(a) => a.is_empty() || (a.len() == 1 && a[0]["field"] == "_score" && a[0].get("order").map(|o| o == "desc").unwrap_or(true)),
+        };
+        return from0 && plain;
+      }
+      m.values().all(all_top_hits_plain)
+    }
+    Value::Array(a) => a.iter().all(all_top_hits_plain),
+    _ => true,
+  }
+}
+
 /// the response with the hit list of every `top_hits` blanked (its `total` stays)
 pub fn without_top_hits_lists(v: &Value) -> Value {
   match v {
@@ -203,6 +260,8 @@ fn metric() -> BoxedStrategy<Value> {
     }),
     (select(NUM.to_vec()), vec(select(vec![0.0f64, 1.0, 2.0, 2.5, 10.0]), 1..3)).prop_map(|(f, vals)| json!({"type": "percentile_ranks", "field": f, "values": vals})),
     (1usize..4, 0usize..3, scoreworld::sort_plan(2)).prop_map(|(size, from, sort)| json!({"type": "top_hits", "size": size, "from": from, "sort": sort})),
+    // score-ordered top_hits (default sort): which of several exactly tied documents it lists
+    (1usize..4, 0usize..2, prop_oneof![Just(json!([])), Just(json!([{"field": "_score", "order": "desc"}]))]).prop_map(|(size, from, sort)| json!({"type": "top_hits", "size": size, "from": from, "sort": sort})),
   ]
   .boxed()
 }
@@ -295,10 +354,10 @@ impl Property for C13 {
   type Case = Case;
   const ID: &'static str = "C13";
   fn rule() -> String {
-    "cases = corpus (5-60 docs, 1-4 segments, deletions), query, optional filter, an aggregation tree (depth<=2 incl. top_hits, composite, metrics) and optionally a completion suggest request; a base response (limit covering all matches, bm25, default sort) is compared with 5 variations: limit 1/3/n, return_hits=false, sort plans, wand/bmw with block sizes, explain/profile, rescore, and every page of a cursor walk; aggregations and suggest must be equal (counts, keys and document ids exact, f64 aggregates 1e-9 relative, top_hits hit scores - f32 sums whose order depends on the execution strategy - 1e-5 relative; a score-ordered top_hits list may swap documents whose scores are within that tolerance, counted as class top_hits-near-tie-not-judged). Non-trivial = a walk of >=2 pages with a metric or top_hits in the tree, or base and variation differ in whether scores are computed (score sort vs field sort); distinct = hash of (aggs, variation, query)".into()
+    "cases = corpus (5-60 docs, 1-4 segments, deletions), query, optional filter, an aggregation tree (depth<=2 incl. top_hits, composite, metrics) and optionally a completion suggest request; a base response (limit covering all matches, bm25, default sort) is compared with 5 variations: limit 1/3/n, return_hits=false, sort plans, wand/bmw with block sizes, explain/profile, rescore, and every page of a cursor walk; aggregations and suggest must be equal (counts, keys and document ids exact, f64 aggregates 1e-9 relative, top_hits hit scores - f32 sums whose order depends on the execution strategy - 1e-5 relative; a score-ordered top_hits list may swap documents whose scores are within that tolerance, counted as class top_hits-near-tie-not-judged - unless the swap is between exact ties: two documents of one segment with the same token multisets and bit-identical base scores, or, for a plain score-descending top_hits without from, a base list that holds the later of two documents with bit-identical base scores and lacks the earlier one). Non-trivial = a walk of >=2 pages with a metric or top_hits in the tree, or base and variation differ in whether scores are computed (score sort vs field sort); distinct = hash of (aggs, variation, query)".into()
   }
   fn plan(tier: Tier) -> Plan {
-    Plan { workers: 16, cases_per_worker: tier.pick(600, 12000) }
+    Plan { workers: 16, cases_per_worker: tier.pick(1500, 60000) }
   }
   fn shrink_iters() -> u32 {
     800
@@ -355,10 +414,12 @@ impl Property for C13 {
       }
     };
     let base_aggs = serde_json::to_value(&base_res.aggregations).unwrap();
+    let base_scores: std::collections::HashMap<String, u32> = crate::rank::hits(&base_res).into_iter().map(|h| (h.id, h.score.to_bits())).collect();
     let base_sug = serde_json::to_value(&base_res.suggest).unwrap();
     let has_metric = ["stats", "extended_stats", "value_count", "top_hits", "percentiles", "cardinality"].iter().any(|t| has_type(&case.aggs, t));
     let has_top_hits = has_type(&case.aggs, "top_hits");
     let score_ties = top_hits_orders_by_score(&case.aggs);
+    let plain_score_top_hits = all_top_hits_plain(&case.aggs);
     let known_cursor = ctx.is_known(Self::ID, SIG_CURSOR);
     let known_matchonly = ctx.is_known(Self::ID, SIG_MATCHONLY);
     for v in case.variations.iter() {
@@ -398,7 +459,26 @@ impl Property for C13 {
         };
         let aggs = serde_json::to_value(&res.aggregations).unwrap();
         let sug = serde_json::to_value(&res.suggest).unwrap();
-        let cmp = agg_cmp(&aggs, &base_aggs, score_ties);
+        let _ = take_pardoned();
+        let mut cmp = agg_cmp(&aggs, &base_aggs, score_ties);
+        if cmp == AggEq::NearTie {
+          // a near tie is a rounding matter between documents whose scores are computed from different inputs and
+          // differ in the last bits. Two cases are exact ties instead, decided by the tie-break alone, and a
+          // genuine swap there (each list holds a document the other list lacks) is a dependence on the request:
+          // (B) both documents live in one segment with the same token multisets in every text field and
+          //     bit-identical scores in the base response - identical scoring inputs, equal scores in every strategy;
+          // (A) a plain score-descending top_hits without `from`: the base (exhaustive) response lists y and not x
+          //     although their base scores are bit-identical and x comes first in (segment, document) order
+          for (x, y, x_in_base, y_in_var) in take_pardoned() {
+            if x_in_base || y_in_var {
+              continue;
+            }
+            if exact_tie(&built.live, &base_scores, &x, &y) || (plain_score_top_hits && base_prefers_later(&built.live, &base_scores, &x, &y)) {
+              out.class("top_hits-exact-tie-judged");
+              cmp = AggEq::Different;
+            }
+          }
+        }
         if cmp == AggEq::NearTie {
           // not judged: which of two documents whose scores differ by f32 rounding comes first
           out.class("top_hits-near-tie-not-judged");
